@@ -486,7 +486,7 @@ func loadDict() {
 func dictShapes(c float64) []float64 {
 	out := []float64{c, -c, c * math.Sqrt2, c / math.Sqrt2, -c * math.Sqrt2, -c / math.Sqrt2, c * c, 2 * c, c / 2, c + 1, c - 1}
 	if c > 0 {
-		out = append(out, math.Sqrt(c), 1/c, math.Log(c), -math.Log(c))
+		out = append(out, math.Sqrt(c), math.Sqrt(2*c), 1/c, math.Log(c), -math.Log(c))
 	}
 	if math.Abs(c) < 700 {
 		out = append(out, math.Exp(c), math.Exp(-c))
